@@ -280,10 +280,35 @@ def run(ctx: core.Ctx) -> int:
         ok_ord = pos[id(upd.stmt)] < pos[id(apps[0][0].stmt)] and (not mk or pos[id(mk[0][0].stmt)] <= pos[id(upd.stmt)])
         ctx.oblige("SEQUENCE", where, "per sensor: make_reading, sensor_model, then the NIS of that update", ok_ord, file=F, func=q,
                    construct="per-sensor order", msg="the NIS is not computed from the records of the update just applied (statement order)")
-    # rows collected in order and returned
+    # rows collected in order and returned: per row a fresh list L, one value appended per sensor (above), L appended once -- unconditionally, after
+    # the sensor loop -- to the outer list O, which starts empty before the row loop and is what is returned (as an array)
+    okc, whyc = False, "no per-sensor list found"
+    outer = None
+    if apps and isinstance(apps[0][1].func, ast.Attribute) and isinstance(apps[0][1].func.value, ast.Name):
+        L = apps[0][1].func.value.id
+        resets = [i for i in in_row if i.kind == "assign" and isinstance(i.target, ast.Name) and i.target.id == L]
+        okc = len(resets) == 1 and isinstance(resets[0].value, ast.List) and not resets[0].value.elts and not resets[0].guards \
+            and pos[id(resets[0].stmt)] < first_sens
+        whyc = f"the per-row list `{L}` is not reset to [] once per row before the sensor loop (values of earlier rows leak into later ones)"
+        if okc:
+            outs = [i for i in in_row if i.kind == "expr" and isinstance(i.value, ast.Call) and isinstance(i.value.func, ast.Attribute)
+                    and i.value.func.attr == "append" and len(i.value.args) == 1 and isinstance(i.value.args[0], ast.Name) and i.value.args[0].id == L and isinstance(i.value.func.value, ast.Name)]
+            last_sens = max((pos[id(i.stmt)] for i in in_sens if id(i.stmt) in pos), default=first_sens)
+            okc = len(outs) == 1 and not outs[0].guards and pos[id(outs[0].stmt)] > last_sens
+            whyc = f"the row's list `{L}` is not appended exactly once, unconditionally, after the sensor loop ({len(outs)} append(s) found)"
+            if okc:
+                outer = outs[0].value.func.value.id
+                inits = [i for i in items if i.kind == "assign" and isinstance(i.target, ast.Name) and i.target.id == outer and not i.loops
+                         and pos.get(id(i.stmt), 10**9) < pos[id(row)]] if id(row) in pos else []
+                okc = len(inits) == 1 and isinstance(inits[0].value, ast.List) and not inits[0].value.elts
+                whyc = f"the collecting list `{outer}` does not start empty before the row loop"
+    ctx.oblige("OUTPUTS", where, "per row: fresh list, one value per sensor, appended once to the collecting list", okc, file=F, func=q,
+               construct="row collection", msg=whyc)
+    default_return_rule(ctx, tr, q, "OUTPUTS")
     rets = [r for r in ast.walk(tr) if isinstance(r, ast.Return) and r.value is not None]
-    okret = any(ast.unparse(r.value) == "innovations" for r in rets) and any(
-        isinstance(s, ast.Assign) and ast.unparse(s.targets[0]) == "innovations" and "np.array(innovations" in ast.unparse(s.value) for s in tr.body)
+    O_ = outer or "innovations"
+    okret = any(ast.unparse(r.value) == O_ for r in rets) and any(
+        isinstance(s, ast.Assign) and ast.unparse(s.targets[0]) == O_ and f"np.array({O_}" in ast.unparse(s.value) for s in tr.body)
     ctx.oblige("OUTPUTS", where, "returns the per-row lists as an array", okret, file=F, func=q, construct="transform return",
                msg="transform does not return the collected per-row, per-sensor values as an array")
     # ---- RECORDS (from the E2 event log of sensor_model)
@@ -306,6 +331,7 @@ def run(ctx: core.Ctx) -> int:
     ctx.oblige("OUTPUTS", f"{F}:{CLS}.mahalanobis", "returns transform's values flattened; negatives raise", okm and guard, file=F, func=f"{CLS}.mahalanobis",
                construct="mahalanobis", msg="mahalanobis does not return the flattened transform output guarded against negative values")
     score_rule(ctx, cls, mod)
+    refuse_only_rule(ctx, cls, mod)
     for name in ("transform", "mahalanobis", "score"):
         fn = core.find_func(cls, name)
         ws = [w for w in effects.writes(fn) if not (w.kind == "attr" and w.target == "self.model_")]
@@ -314,6 +340,102 @@ def run(ctx: core.Ctx) -> int:
                    msg=f"{name} changes estimator state: " + "; ".join(f"{w.kind} {w.target} (line {w.line})" for w in ws))
     return core.finish(ctx, explanation="structural (def-use resolved) rules on the adapter's row consumption and call sequence, E3 normal form of the "
                                         "NIS and score, effect analysis", **META)
+
+
+def default_return_rule(ctx, fn_norm, q, rule):
+    """the plain value is what is returned when the optional boolean flag (default False) is not set; the tuple with extras only when it is"""
+    from .c17 import _paths
+    flags = [a.arg for a, d in zip(fn_norm.args.args[len(fn_norm.args.args) - len(fn_norm.args.defaults):], fn_norm.args.defaults)
+             if isinstance(d, ast.Constant) and d.value is False]
+    flags += [a.arg for a, d in zip(fn_norm.args.kwonlyargs, fn_norm.args.kw_defaults) if isinstance(d, ast.Constant) and d.value is False]
+    if not flags:
+        return
+    for path in _paths(fn_norm.body):
+        rets = [e[1] for e in path if e[0] == "stmt" and isinstance(e[1], ast.Return) and e[1].value is not None]
+        if not rets:
+            continue
+        pol_of = {}
+        for e in path:
+            if e[0] == "cond":
+                t, pol = e[1], e[2]
+                while isinstance(t, ast.UnaryOp) and isinstance(t.op, ast.Not):
+                    t, pol = t.operand, not pol
+                if isinstance(t, ast.Name) and t.id in flags:
+                    pol_of[t.id] = pol
+        v = rets[0].value
+        extras = isinstance(v, ast.Tuple)
+        set_flags = [f for f, p_ in pol_of.items() if p_]
+        ok = bool(set_flags) if extras else not set_flags
+        ctx.oblige(rule, f"{F}:{q}", ("tuple with extras" if extras else "plain value") + f" returned with {pol_of}", ok, file=F, func=q,
+                   construct="default return " + ("extras" if extras else "plain"),
+                   msg=(f"{q} returns the tuple with extras although {flags} is not set" if extras else
+                        f"{q} returns the plain value only when {set_flags} is set: the default call returns something else"),
+                   line=getattr(rets[0], "lineno", None))
+
+
+def refuse_only_rule(ctx, cls, mod):
+    """REFUSE-ONLY: transform / mahalanobis / score raise only when something is wrong with the *result* (no sensors, a negative value, nothing
+    computed, a non-finite score) -- decided on the guard normal form of every raise, so a negated or weakened guard that refuses valid data is
+    reported.  (Whether these raises exist at all is not required by the property.)"""
+    from .. import normast, estflow, rtmodel
+    from .c17 import _paths
+    ctx.rule("REFUSE-ONLY", "the adapter raises only under: no sensor models / negative NIS present / empty result / non-finite score")
+
+    def bad(lit):
+        c, pol = lit
+        txt = rtmodel.cppast.show(c) if isinstance(c, tuple) else str(c)
+        # any(x < 0) is true
+        if pol and c[0] in ("mcall", "call") and (c[2] if c[0] == "mcall" else c[1]) == "any":
+            args = c[3] if c[0] == "mcall" else c[2]
+            return len(args) == 1 and args[0][0] == "bin" and args[0][1] == "<" and args[0][3] in (("num", "0.0"), ("num", "0"))
+        # a scalar value < 0 (inside the diagnostic loop)
+        if pol and c[0] == "bin" and c[1] == ">" and c[2] in (("num", "0.0"), ("num", "0")):
+            return True
+        # len(x) <= 0  (canonical: not (len(x) > 0)), len(x) == 0
+        if not pol and c[0] == "bin" and c[1] == ">" and c[2][0] == "call" and c[2][1] == "len" and c[3] == ("num", "0"):
+            return True
+        if pol and c[0] == "bin" and c[1] == "==" and c[2][0] == "call" and c[2][1] == "len" and c[3] == ("num", "0"):
+            return True
+        # not isfinite(x)
+        if not pol and c[0] in ("mcall", "call") and (c[2] if c[0] == "mcall" else c[1]) == "isfinite":
+            return True
+        # type / None guards on the arguments
+        if c[0] == "call" and c[1] == "isinstance" and not pol:
+            return True
+        return False
+    n = 0
+    for name in ("transform", "mahalanobis", "score"):
+        fn = core.need(core.find_func(cls, name), f"{CLS}.{name}")
+        fn = normast.Normaliser(normast.class_resolver(mod, cls, module_funcs=False), consts=normast.module_constants(mod)).function(fn)
+        q = f"{CLS}.{name}"
+
+        def paths_of(stmts, prefix):
+            for path in _paths(stmts, prefix):
+                yield path
+        # loops are opaque to _paths: descend into loop bodies as well (conditions of enclosing statements kept)
+        work = [(fn.body, [])]
+        seen_raises = set()
+        while work:
+            stmts, prefix = work.pop()
+            for path in _paths(stmts, prefix):
+                conds = [(e[1], e[2]) for e in path if e[0] == "cond"]
+                for e in path:
+                    if e[0] == "stmt" and isinstance(e[1], (ast.For, ast.While)):
+                        idx = path.index(e)
+                        work.append((e[1].body, [x for x in path[:idx] if x[0] == "cond"]))
+                    if e[0] == "stmt" and isinstance(e[1], ast.Raise) and id(e[1]) not in seen_raises:
+                        seen_raises.add(id(e[1]))
+                        n += 1
+                        idx = path.index(e)
+                        cs = [(rtmodel.py_expr(x[1]), x[2]) for x in path[:idx] if x[0] == "cond"]
+                        lits = estflow.literals(cs)
+                        okr = lits is not None and any(bad(l) for l in lits)
+                        ctx.oblige("REFUSE-ONLY", f"{F}:{q}", f"raise under `{' and '.join(('' if p_ else 'not ') + ast.unparse(t)[:50] for t, p_ in [(x[1], x[2]) for x in path[:idx] if x[0] == 'cond'])}`",
+                                   okr, file=F, func=q, construct="raise guard " + ast.unparse(e[1])[:50],
+                                   msg=f"{name} raises `{ast.unparse(e[1])[:70]}` under `" + " and ".join(("" if x[2] else "not ") + ast.unparse(x[1])[:60] for x in path[:idx] if x[0] == "cond")
+                                       + "`: that is not one of the documented failure conditions (no sensors, negative values, nothing computed, non-finite score), so valid data is refused",
+                                   line=getattr(e[1], "lineno", None))
+    ctx.floor("REFUSE-ONLY", n, 4, "raise statements in transform / mahalanobis / score")
 
 
 def _scalar(e, names, env=None, depth=0):
@@ -344,7 +466,7 @@ def _scalar(e, names, env=None, depth=0):
             (mono, c), = b.t.items()
             inv = Scalar({tuple((x, -k) for x, k in mono): Fraction(1) / c})
             return a * inv
-        return None
+        return a * Scalar.atom("recip[" + ast.unparse(e.right).replace(" ", "")[:60] + "]")
     if isinstance(e, ast.Name):
         names.add(e.id)
         return Scalar.atom(e.id)
@@ -362,6 +484,7 @@ def score_rule(ctx, cls, mod=None):
     where = f"{F}:{q}"
     consts = normast.module_constants(mod) if mod is not None else {}
     sc = normast.Normaliser(None, consts=consts).function(sc)
+    default_return_rule(ctx, sc, q, "SCORE")
     env = {}
     for s_ in ast.walk(sc):
         if isinstance(s_, ast.Assign) and len(s_.targets) == 1 and isinstance(s_.targets[0], ast.Name):
